@@ -1,8 +1,12 @@
 //! Verification hooks, compiled only under `--cfg helgoboss_midi_verif`.
 //!
 //! Provides a drop-in replacement for `std::time::Instant` that is backed by a thread-local,
-//! test-driven tick counter (1 tick = 1 millisecond) so that histories fed to the polling scanner
-//! can contain explicit time steps.
+//! test-driven clock (set in milliseconds, kept in nanoseconds) so that histories fed to the
+//! polling scanner can contain explicit time steps.  The replacement offers the whole public
+//! surface of `std::time::Instant` (arithmetic with `Duration`, differences, checked and
+//! saturating variants, ordering), so that code written against the real type compiles and
+//! behaves the same against the mock.
+use core::ops::{Add, AddAssign, Sub, SubAssign};
 use core::time::Duration;
 use std::cell::Cell;
 
@@ -17,7 +21,7 @@ pub fn set_now(ms: u64) {
 
 /// Advances the mock clock of the current thread.
 pub fn advance(ms: u64) {
-    NOW_MS.with(|n| n.set(n.get() + ms));
+    NOW_MS.with(|n| n.set(n.get().saturating_add(ms)));
 }
 
 /// Returns the current reading of the mock clock of the current thread.
@@ -25,21 +29,89 @@ pub fn now_ms() -> u64 {
     NOW_MS.with(|n| n.get())
 }
 
-/// Mock counterpart of `std::time::Instant`.
+const NANOS_PER_MILLI: u128 = 1_000_000;
+const NANOS_PER_SEC: u128 = 1_000_000_000;
+/// Like the real type on the platforms the crate is used on, the mock cannot represent more
+/// than `i64::MAX` seconds; arithmetic beyond that is an overflow.
+const MAX_NANOS: u128 = (i64::MAX as u128) * NANOS_PER_SEC;
+
+/// Mock counterpart of `std::time::Instant` (nanoseconds since the origin of the mock clock).
 #[derive(Copy, Clone, Eq, PartialEq, Ord, PartialOrd, Hash, Debug)]
-pub struct Instant(u64);
+pub struct Instant(u128);
+
+fn duration_of(nanos: u128) -> Duration {
+    Duration::new((nanos / NANOS_PER_SEC) as u64, (nanos % NANOS_PER_SEC) as u32)
+}
 
 impl Instant {
     pub fn now() -> Instant {
-        Instant(now_ms())
+        Instant(now_ms() as u128 * NANOS_PER_MILLI)
     }
 
     pub fn elapsed(&self) -> Duration {
-        Duration::from_millis(now_ms().saturating_sub(self.0))
+        Instant::now().saturating_duration_since(*self)
     }
 
-    /// The clock reading at which this instant was taken.
+    pub fn duration_since(&self, earlier: Instant) -> Duration {
+        self.saturating_duration_since(earlier)
+    }
+
+    pub fn checked_duration_since(&self, earlier: Instant) -> Option<Duration> {
+        self.0.checked_sub(earlier.0).map(duration_of)
+    }
+
+    pub fn saturating_duration_since(&self, earlier: Instant) -> Duration {
+        duration_of(self.0.saturating_sub(earlier.0))
+    }
+
+    pub fn checked_add(&self, duration: Duration) -> Option<Instant> {
+        let n = self.0.checked_add(duration.as_nanos())?;
+        if n > MAX_NANOS {
+            None
+        } else {
+            Some(Instant(n))
+        }
+    }
+
+    pub fn checked_sub(&self, duration: Duration) -> Option<Instant> {
+        self.0.checked_sub(duration.as_nanos()).map(Instant)
+    }
+
+    /// The clock reading (whole milliseconds) at which this instant was taken.
     pub fn as_ms(&self) -> u64 {
-        self.0
+        (self.0 / NANOS_PER_MILLI) as u64
+    }
+}
+
+impl Add<Duration> for Instant {
+    type Output = Instant;
+    fn add(self, other: Duration) -> Instant {
+        self.checked_add(other).expect("overflow when adding duration to instant")
+    }
+}
+
+impl AddAssign<Duration> for Instant {
+    fn add_assign(&mut self, other: Duration) {
+        *self = *self + other;
+    }
+}
+
+impl Sub<Duration> for Instant {
+    type Output = Instant;
+    fn sub(self, other: Duration) -> Instant {
+        self.checked_sub(other).expect("overflow when subtracting duration from instant")
+    }
+}
+
+impl SubAssign<Duration> for Instant {
+    fn sub_assign(&mut self, other: Duration) {
+        *self = *self - other;
+    }
+}
+
+impl Sub<Instant> for Instant {
+    type Output = Duration;
+    fn sub(self, other: Instant) -> Duration {
+        self.duration_since(other)
     }
 }
